@@ -244,7 +244,18 @@ func (r *replayer) lexCase(c LexCase) {
 			r.sum.Stats["lexer panics or hangs (C04's subject)"]++
 			break
 		}
+		// (family numsuffix - where a number literal ends - is small and the machine is exact on it: there a
+		// difference in acceptance, kinds or values is a verdict; elsewhere it is counted as drift of the model)
+		strictFam := c.Fam == "numsuffix"
 		if (lerr == nil) != c.Out.Ok {
+			if strictFam {
+				msg := "accepted"
+				if lerr != nil {
+					msg = lerr.Error()
+				}
+				r.fail(Failure{Why: "text-accepted-differently", Src: text, Mode: c.Fam, Got: &Got{Stage: "lex", Err: msg}})
+				break
+			}
 			r.sum.Stats["drift: machine and lexer disagree on acceptance"]++
 			break
 		}
@@ -263,6 +274,10 @@ func (r *replayer) lexCase(c LexCase) {
 			}
 		}
 		if !same {
+			if strictFam {
+				r.fail(Failure{Why: "token-kinds-or-values", Src: text, Mode: c.Fam, Got: &Got{Stage: "lex", Err: showToks(toks)}})
+				break
+			}
 			r.sum.Stats["drift: token kinds or values"]++
 			break
 		}
